@@ -827,9 +827,14 @@ class TLSConnection(TLSRecordLayer):
             if settings.ec_point_formats:
                 extensions.append(ECPointFormatsExtension().\
                                 create(settings.ec_point_formats))
+        elif shares is not None:
+            # TLS 1.3 needs supported_groups next to key_share even if no
+            # ECDHE cipher suite of earlier versions is offered
+            groups.extend(self._curveNamesToList(settings))
         # Advertise FFDHE groups if we have DHE ciphers
         if next((cipher for cipher in cipherSuites
-                 if cipher in CipherSuite.dhAllSuites), None) is not None:
+                 if cipher in CipherSuite.dhAllSuites), None) is not None \
+                or shares is not None:
             groups.extend(self._groupNamesToList(settings))
         # Send the extension only if it will be non empty
         if groups:
